@@ -6,7 +6,9 @@ Ties:  T-gen  tools/gen_c05_tables.py regenerates coq/Gen/TypeTable.v from the
               imported code; the table is also checked end to end (one-line programs);
        T-txt  fault enumeration: ~60 valid base programs x every applicable site x
               the fault catalogue (tools/c05faults.py) against the REAL compiler at
-              the six configurations; the extracted Blocks model on the real
+              the six configurations; repeat families (label reuse across routines,
+              CONST operands referenced elsewhere, statements repeated verbatim:
+              tools/c05faults.py repeat_families); the extracted Blocks model on the real
               statement stream of every block fault and on synthetic streams."""
 import itertools
 import json
@@ -40,7 +42,7 @@ def impl(fn, cases):
 
 
 # developer aids (never set by ./check itself): C05_KINDS=a,b restricts the fault
-# kinds, C05_SKIP=table,unrelated,quirks,blocks,streams,corpus skips suites
+# kinds, C05_SKIP=table,unrelated,quirks,repeat,blocks,streams,corpus skips suites
 DEV_KINDS = [k for k in os.environ.get('C05_KINDS', '').split(',') if k]
 DEV_SKIP = [k for k in os.environ.get('C05_SKIP', '').split(',') if k]
 
@@ -470,6 +472,72 @@ def main(tier, seed):
         m = meta[len(meta) // 2]
         ctx.sample({'suite': 'fault_injection', 'kind': m[1]['kind'], 'variant': m[1]['variant'],
                     'program': m[2]})
+
+    # ---- repeat families (same set at both tiers): the offending construct also
+    # occurs validly / verbatim elsewhere in the program, so that anything the
+    # compiler remembers per name or shares per node shows up as an accepted
+    # fault or as a diagnostic on the line of the other occurrence
+    rep = c05faults.repeat_families() if 'repeat' not in DEV_SKIP else []
+    if DEV_KINDS:
+        rep = [c for c in rep if c['kind'].split(':')[0] in DEV_KINDS or c['family'] in DEV_KINDS]
+    rep_cases = []
+    for n, c in enumerate(rep):
+        cf = CFGS if n % 8 == 0 else [CFGS[n % 6]]
+        rep_cases.append({'src': c['src'], 'cfgs': cf})
+    res = impl('staticfn.compile_cfgs', rep_cases)
+    n_rep = 0
+    rep_out = {}
+    for c, rc, r in zip(rep, rep_cases, res):
+        if not isinstance(r, list):
+            ctx.broken.append(f'repeat families: implementation worker failed: {str(r)[-300:]}')
+            break
+        ctx.bump('repeat:' + c['family'] + (':control' if c.get('valid') else ''))
+        for cfg, v in zip(rc['cfgs'], r):
+            n_rep += 1
+            if c.get('valid'):
+                sig = None if v['v'] == 'ok' else f"C05/rejected-valid({c['kind']})"
+            else:
+                # const-operand / duplicated-statement: the catalogue's own kind, so
+                # that a known defect of the kind is recognised as the same defect
+                base = c['kind'].split(':')[0] if c['family'] != 'label-reuse' else c['kind']
+                sig = judge_fault(base, c['expect'], c['lines_ok'], c['src'].count('\n'), v)
+                if sig and sig.startswith(('C05/wrong-line(', 'C05/no-position(')):
+                    sig = sig[:-1] + ',' + c['family'] + ')'
+            key = (c['family'], 'as-demanded' if sig is None else sig.split('(')[0].replace('C05/', ''))
+            rep_out['/'.join(key)] = rep_out.get('/'.join(key), 0) + 1
+            if sig:
+                ctx.report(sig, {'program': c['src'], 'family': c['family'], 'fault_kind': c['kind'],
+                                 'variant': c['variant'], 'cfg': cfg_name(cfg),
+                                 'expected': 'accepted' if c.get('valid') else expect_text(c['expect']),
+                                 'expected_lines': sorted(c.get('lines_ok', [])),
+                                 'verdict': v}, True)
+    ctx.count('repeat_families', n_rep, {c['src'] for c in rep})
+    ctx.extra['repeat_outcomes'] = rep_out
+    if rep:
+        for fam in ('label-reuse', 'const-operand', 'duplicated-statement'):
+            m = [c for c in rep if c['family'] == fam and not c.get('valid')]
+            if m:
+                m = m[len(m) // 2]
+                ctx.sample({'suite': 'repeat_families', 'family': fam, 'kind': m['kind'],
+                            'variant': m['variant'], 'program': m['src']})
+        nf = {}
+        for c in rep:
+            nf[c['family']] = nf.get(c['family'], 0) + 1
+        ctx.rule.append(
+            f'repeat families, {len(rep)} small self-contained programs (bounded exhaustive, every 8th at '
+            f'all 6 configurations, the others at one configuration rotating with the index; {n_rep} '
+            f'evaluations): label-reuse {nf.get("label-reuse", 0)} = faulty jump GOTO/GOSUB/RESTORE/RETURN '
+            f'into another routine x valid jump to the same label/line number in its own routine (GOTO, '
+            f'GOSUB, RETURN, RESTORE, ON ERROR GOTO, none) x label/line number x 6 routine pairs over '
+            f'main/SUB/FUNCTION x source order of the routines x valid jump before/after the definition, '
+            f'+ controls without the foreign jump; const-operand {nf.get("const-operand", 0)} = '
+            f'{len(c05faults.CONST_STR_TEMPLATES)} + {len(c05faults.CONST_NUM_TEMPLATES)} type/argument fault '
+            f'templates with the offending operand a string/numeric CONST (literal and composite values) x '
+            f'6 placements of further valid references (none, before, after, both, inside a later SUB) x '
+            f'module level / SUB with global CONST / SUB with local CONST, + controls; duplicated-statement '
+            f'{nf.get("duplicated-statement", 0)} = every label-free variant of every statement-style fault '
+            f'kind repeated verbatim 2 and 3 times at module level, in a SUB and in a FUNCTION (diagnostic '
+            f'must be on the first occurrence)')
 
     # ---- Blocks model on the real statement stream of every block fault
     bl = [(i, d, src) for (i, d, src, _lo, _cf) in meta if d.get('block')]
